@@ -217,11 +217,32 @@ func c09GenCase(seed int64, idx int) packedCase {
 	}
 	// callee
 	var ps, rts, rvs []string
+	// now and then the parameters the results do not use are spelled _ in the callee (the wrapper and
+	// the callers still pass a value for each)
+	blank := map[int]bool{}
+	if rng.Chance(1, 4) {
+		used := map[int]bool{}
+		for _, ri := range sig.results {
+			used[ri] = true
+		}
+		for i := range sig.params {
+			if !used[i] && rng.Chance(3, 4) {
+				blank[i] = true
+			}
+		}
+	}
+	var wps []string // the wrapper's parameter list: every parameter named
 	for i, p := range sig.params {
+		wps = append(wps, fmt.Sprintf("p%d %s", i, p.name))
+		if blank[i] {
+			ps = append(ps, "_ "+p.name)
+			continue
+		}
 		ps = append(ps, fmt.Sprintf("p%d %s", i, p.name))
 	}
 	if sig.variadic != nil {
 		ps = append(ps, "va ..."+sig.variadic.name)
+		wps = append(wps, "va ..."+sig.variadic.name)
 	}
 	for _, ri := range sig.results {
 		if ri < 0 {
@@ -244,6 +265,9 @@ func c09GenCase(seed int64, idx int) packedCase {
 	var sb strings.Builder
 	fmt.Fprintf(&sb, "func %s(%s)%s {\n", id, strings.Join(ps, ", "), rt)
 	for i, p := range sig.params {
+		if blank[i] {
+			continue
+		}
 		fmt.Fprintf(&sb, "\tfmt.Println(\"%s p%d\", %s)\n", id, i, p.print(fmt.Sprintf("p%d", i)))
 	}
 	if sig.variadic != nil {
@@ -314,7 +338,7 @@ func c09GenCase(seed int64, idx int) packedCase {
 		if len(rts) == 1 && rng.Bool() {
 			lit = "\tpair := func(a int) (int, int) {\n\t\treturn a, a + 1\n\t}\n\tq1, q2 := pair(1)\n\t_, _ = q1, q2\n"
 		}
-		fmt.Fprintf(&sb, "func %sw(%s)%s {\n%s\treturn %s(%s)\n}\n\n", id, strings.Join(ps, ", "), rt, lit, id, func() string {
+		fmt.Fprintf(&sb, "func %sw(%s)%s {\n%s\treturn %s(%s)\n}\n\n", id, strings.Join(wps, ", "), rt, lit, id, func() string {
 			var as []string
 			for i := range sig.params {
 				as = append(as, fmt.Sprintf("p%d", i))
